@@ -220,6 +220,7 @@ func VH_C11_pipelined_client_field_index() {
 // a pipelined call races with the resolution: it is delivered exactly once - to the pipeline
 // caller if it got there first, otherwise it is resolved against the result
 func VH_C11_par_fulfill_vs_pipeline() {
+	vNoBlock(true) // the two goroutines below are the only ones: a wait nobody can end is a hang
 	vc := &vCaller{}
 	p := NewPromise(Method{}, vc)
 	var ans *Answer
@@ -238,6 +239,7 @@ func VH_C11_par_fulfill_vs_pipeline() {
 
 // asking for the pipelined client races with the resolution
 func VH_C11_par_fulfill_vs_client() {
+	vNoBlock(true) // the two goroutines below are the only ones: a wait nobody can end is a hang
 	p := NewPromise(Method{}, &vCaller{})
 	var c *Client
 	vPar(func() {
@@ -258,6 +260,7 @@ func VH_C11_par_fulfill_vs_client() {
 
 // Join races with the parent's resolution
 func VH_C11_par_join_vs_fulfill() {
+	vNoBlock(true) // the two goroutines below are the only ones: a wait nobody can end is a hang
 	p1 := NewPromise(Method{}, &vCaller{})
 	p2 := NewPromise(Method{}, &vCaller{})
 	vPar(func() {
